@@ -317,7 +317,13 @@ def _select(chk):
             skel.extend(rnd.sample(rest, min(len(rest), 9)))
     cases.extend(skel)
     chk.extra["skeletons"] = len(skel)
-    for gen in (c05gen.switch_product(), c05gen.closure_matrix(), c05gen.completion_cases()):
+    sk2 = [c05gen.describe(p) for p in c05gen.skeletons2()]
+    if quick:
+        rnd = random.Random(core.shard_seed(chk.seed, ID, "skel2-select"))
+        sk2 = rnd.sample(sk2, 1500)
+    cases.extend(sk2)
+    chk.extra["skeletons2"] = len(sk2)
+    for gen in (c05gen.switch_product(), c05gen.closure_matrix(), c05gen.closure_expr_sites(), c05gen.scoping_cases(), c05gen.completion_cases()):
         cases.extend(c05gen.describe(p) for p in gen)
     n_random = 2500 if quick else 60000
     chk.extra["random_programs"] = n_random
@@ -401,9 +407,9 @@ def main(chk):
                 chk.sample({"id": rec["id"], **rec["sample"]}, cls=rec["sub"], per_class=4)
             if "diff" in rec:
                 kind = rec["diff"][0]
-                if rec["sub"] == "skel":
+                if rec["sub"] in ("skel", "skel2"):
                     d = rec["desc"]
-                    bucket = "skel|%s|X:%s|K:%s" % (kind, d[2], d[1])
+                    bucket = "%s|%s|X:%s|K:%s" % (rec["sub"], kind, d[2], d[1])
                 elif rec["sub"] == "random":
                     bucket = "random|%s" % kind
                 else:
